@@ -143,7 +143,7 @@ pub fn predicates(args: &[String]) {
                 log.borrow_mut().clear();
                 runs += 1;
                 if std::env::var("VH_TRACE").is_ok() { eprintln!("TRY {} {:?} {:?}", pred, a, b); }
-                let (res, halted) = run_timed(&script, ctx, 2000);
+                let (res, halted) = run_timed(&script, ctx, 20000);
                 if halted {
                     s.mismatch(json!({"pred": pred, "values": [a, b], "cls": c["cls"], "why": ["hang: halted by the watchdog"]}));
                     continue;
@@ -174,7 +174,7 @@ pub fn predicates(args: &[String]) {
     let mut ctx = base.clone();
     ctx.variables.insert("v1".into(), "val".into());
     log.borrow_mut().clear();
-    let (res, halted) = run_timed("fn ident\nreturn ${1}\nend\nalias al ident\nq = al ${v1}\nemit done\n", ctx, 1500);
+    let (res, halted) = run_timed("fn ident\nreturn ${1}\nend\nalias al ident\nq = al ${v1}\nemit done\n", ctx, 4000);
     let q = match &res { Ok(Ok(c)) => c.variables.get("q").cloned(), _ => None };
     let emits = log.borrow().len();
     if halted || q.as_deref() != Some("val") || emits != 1 {
